@@ -5,10 +5,81 @@ from ..core import rule
 from ..index import AnalysisError, dotted, src, walk_no_nested, names_in
 from ..cfg import CFG, eval3, UNK
 from ..domains import check_pred, linform, Lin, assignments, eval_pred
-from ..util import node_calls, pred_is, cfg_nodes_containing, explore, mk_atoms, enclosing_loops
+from ..util import node_calls, pred_is, cfg_nodes_containing, explore, mk_atoms, enclosing_loops, last_name
 from .slots import BARCODEPARSER
 
 CLS = 'BarcodeParser'
+
+
+def _streaming_minimum(ctx, f, l, key):
+    """The other way to find `the unique closest origin`: keep the closest candidate seen so far per sequence plus a set of sequences whose
+    closest distance is shared by two origins.  Decided as a typestate per sequence: state (absent | unique(d) | tied(d)), event = a new
+    candidate at distance d' (<, ==, > d).  The bookkeeping is correct iff  absent -> unique;  d' < d -> unique(d') from either state;
+    d' == d -> tied;  d' > d -> unchanged;  and the resolution loop registers exactly the sequences that are not tied."""
+    # the fill: innermost loop over hamming_circle(...) storing into the table
+    fills = [x for x in walk_no_nested(f) if isinstance(x, ast.For) and isinstance(x.iter, ast.Call) and last_name(src(x.iter.func)) == 'hamming_circle' and isinstance(x.target, ast.Name)]
+    if len(fills) != 1:
+        return False
+    fl = fills[0]
+    inst = fl.target.id
+    st_ = [s_ for s_ in walk_no_nested(fl) if isinstance(s_, ast.Assign) and len(s_.targets) == 1 and isinstance(s_.targets[0], ast.Subscript)
+           and src(s_.targets[0]) == f'hammingSpace[{inst}]' and isinstance(s_.value, ast.Tuple) and len(s_.value.elts) == 2]
+    cur = [s_ for s_ in fl.body if isinstance(s_, ast.Assign) and len(s_.targets) == 1 and isinstance(s_.targets[0], ast.Name) and src(s_.value) == f'hammingSpace.get({inst})']
+    if not st_ or len(cur) != 1:
+        return False
+    cv = cur[0].targets[0].id
+    dist, origin = src(st_[0].value.elts[0]), src(st_[0].value.elts[1])
+    sets = {src(c.func.value) for c in walk_no_nested(fl) if isinstance(c, ast.Call) and isinstance(c.func, ast.Attribute) and c.func.attr == 'add' and [src(a) for a in c.args] == [inst]}
+    if len(sets) != 1:
+        return False
+    tied = sets.pop()
+    bad = []
+    n = 0
+    for present, rel in ((False, None), (True, '<'), (True, '=='), (True, '>')):
+        facts = {f'{cv} is None': not present, f'{cv} is not None': present, f'{inst} in hammingSpace': present, f'{inst} not in hammingSpace': not present}
+        if present:
+            facts.update({f'{dist} < {cv}[0]': rel == '<', f'{dist} <= {cv}[0]': rel in ('<', '=='), f'{dist} == {cv}[0]': rel == '==', f'{dist} != {cv}[0]': rel != '==',
+                          f'{cv}[0] < {dist}': rel == '>', f'{cv}[0] <= {dist}': rel in ('>', '=='), f'{cv}[0] == {dist}': rel == '=='})
+        for intied in ((False,) if not present else (False, True)):
+            facts2 = dict(facts, **{f'{inst} in {tied}': intied, f'{inst} not in {tied}': not intied})
+            n += 1
+            for r in explore(fl.body, mk_atoms(facts2)):
+                if r['kind'] not in ('fall', 'continue'):
+                    continue
+                stored = any(t == f'hammingSpace[{inst}]' for t, v, k_ in r['stores'])
+                now_tied = intied
+                for c in r['calls']:
+                    if c == f'{tied}.add({inst})':
+                        now_tied = True
+                    elif c in (f'{tied}.discard({inst})', f'{tied}.remove({inst})'):
+                        now_tied = False
+                want_store = (not present) or rel == '<'
+                want_tied = False if (not present or rel == '<') else True if rel == '==' else intied
+                if stored != want_store and not (rel == '==' and stored):
+                    bad.append(f'{"absent" if not present else "stored distance " + {"<": "larger", "==": "equal", ">": "smaller"}[rel]}: candidate is {"" if stored else "not "}stored')
+                if now_tied != want_tied:
+                    bad.append(f'new candidate {"first" if not present else rel + " stored distance"}, sequence {"was" if intied else "was not"} marked tied: it is {"" if now_tied else "not "}marked tied afterwards '
+                               f'(expected {"tied" if want_tied else "not tied"})')
+    ctx.counters['abstract_cases'] += n
+    ctx.emit('C03-R1', not bad, BARCODEPARSER, st_[0], f'closest-candidate bookkeeping over {n} (state, event) cases: ' + ('a closer origin replaces the candidate and clears the tie mark, an equal one sets it' if not bad else bad[0]),
+             key='tie-guard', witness={'cases': bad[:4]} if bad else None, what='expand: closest-candidate bookkeeping leaves a stale or missing tie mark')
+    # resolution: registered iff not tied, with (distance, origin) read from the table entry
+    calls = [c for c in walk_no_nested(l) if isinstance(c, ast.Call) and src(c.func) == 'self.addBarcode']
+    if len(calls) != 1:
+        return False
+    okres = True
+    for intied in (False, True):
+        rs = explore(l.body, mk_atoms({f'{key} in {tied}': intied, f'{key} not in {tied}': not intied}))
+        reg = {any(c.startswith('self.addBarcode(') for c in r['calls']) for r in rs if r['kind'] in ('fall', 'continue')}
+        okres = okres and reg == {not intied}
+    ctx.emit('C03-R1', okres, BARCODEPARSER, calls[0], 'the resolution loop registers exactly the sequences that are not marked tied', key='tie-guard-resolution')
+    unp = [s_ for s_ in walk_no_nested(l) if isinstance(s_, ast.Assign) and len(s_.targets) == 1 and isinstance(s_.targets[0], ast.Tuple) and src(s_.value) == f'hammingSpace[{key}]']
+    kw = {k_.arg: src(k_.value) for k_ in calls[0].keywords}
+    ok = len(unp) == 1 and len(unp[0].targets[0].elts) == 2 and kw.get('barcode') == key and kw.get('hammingDistance') == src(unp[0].targets[0].elts[0]) and kw.get('originBarcode') == src(unp[0].targets[0].elts[1]) \
+        and (dist, origin) == ('hammingDistance', 'barcode')
+    ctx.emit('C03-R1', ok, BARCODEPARSER, calls[0], 'registration takes (distance, origin) from the stored closest candidate', key='registration-provenance')
+    ctx.exhaustive['C03-R1'] = True
+    return True
 
 
 @rule('C03', 'C03-R1', 'tie guard: a corrected barcode is registered only when the two smallest candidate distances differ; the registered '
@@ -30,7 +101,8 @@ def r1(ctx):
         raise AnalysisError('expand: target of the resolution loop not understood')
     srt = [s for s in l.body if isinstance(s, ast.Assign) and isinstance(s.value, ast.Call) and dotted(s.value.func) == 'sorted']
     if len(srt) != 1:
-        ctx.emit('C03-R1', False, BARCODEPARSER, l, 'candidates are not sorted by distance before the tie test', key='tie-guard', undecided=True)
+        if not _streaming_minimum(ctx, f, l, key):
+            ctx.emit('C03-R1', False, BARCODEPARSER, l, 'candidates are not sorted by distance before the tie test', key='tie-guard', undecided=True)
         return
     sv = srt[0].targets[0].id
     okarg = src(srt[0].value.args[0]) in ((f'hammingSpace[{key}]',) + ((valvar,) if valvar else ())) and not srt[0].value.keywords
